@@ -107,4 +107,41 @@ PROPS = {
         ],
         "partial": ["self-containedness and equality with a direct build are decided per case on the real code; graph-level theorems characterise the segment's contents"],
     },
+    "C06": {
+        "harness": "c06",
+        "props_file": "Props/C06.v",
+        "run_module": "Model.Version Model.RunC06",
+        "run_fn": "run_c06",
+        "pinned_theorems": ["C06_resolve_version", "C06_select", "C06_select_unique", "C06_select_unique_up_to_rank", "C06_order_free",
+                            "C06_order_free_perm", "C06_wf_ranks_decided", "C06_wf_nodup_decided",
+                            "C06_get_for_package", "C06_excluded", "C06_not_excluded",
+                            "C06_no_cutoff_no_date_filter", "C06_error_flag", "C06_cutoff_strict",
+                            "C06_no_creation_date_is_old", "C06_spec_okb_correct",
+                            "C06_order_free_equal_rank_refuted"],
+        "rule": ("selection-function level, direct calls to the public deno_graph::packages API. (a) EVERY registry "
+                 "info made of <= 3 of the versions {0.9.0, 1.0.0, 1.1.0, 2.0.0-beta.1, 2.0.0}, each yanked or not and "
+                 "created never/before/at/after the cutoff (5801 infos), x 3 option sets (no date / date / date with "
+                 "the package excluded by exact name or prefix) x 6 requirements (*, ^1, ~1.0, 1.1.0, >=2.0.0-0, ^3) x "
+                 "existing sets x cached sets: quick = the empty set plus seeded selections (existing drawn from all "
+                 "of the 5 versions, so lockfile seeds absent from the registry occur; repeated elements occur), "
+                 "thorough = all 32 existing subsets x all cached subsets (+ one cached version absent from the "
+                 "registry); (b) sampled infos of 4-5 of the 5 and 3-6 of a wider 9-version universe; (c) explicit "
+                 "queries on a 12-version universe that contains versions differing in build metadata only: each is "
+                 "answered by the real code under two different iteration orders of the same registry HashMap "
+                 "(fresh RandomStates until the wanted order appears), both answers are judged by the extracted, "
+                 "proved decision procedure spec_okb and for equality; (d) NewestDependencyDateOptions::"
+                 "get_for_package exhaustively over 11 names x all option sets with <= 2 exclusions, <= 2 prefixes, "
+                 "date on/off; (e) the free function resolve_version on explicit sequences with repeats. "
+                 "Version::cmp enters as a dense rank (checked to be a total preorder), VersionReq::matches as a "
+                 "matrix. non-trivial = case with at least two different outcome classes (unyanked / yanked / dated "
+                 "error / plain error; cutoff in force / not; some / none)"),
+        "assumptions": [
+            "Version::cmp and VersionReq::matches enter the model as data computed by deno_semver on the case's versions",
+            "graph-level resolution (resolve_jsr_nv, cached-manifest probe, tag rejection, lockfile seeding, used-yanked bookkeeping) is not covered yet: it needs the builder model",
+            "the cutoff comparison follows the code (created < cutoff); the boundary is not reported as a violation (DESIGN.md C06)",
+            "known finding F-C06a (registry versions that differ in build metadata only: the pick depends on HashMap iteration order) is reported as KNOWN-FINDING",
+        ],
+        "partial": ["selection function only; order independence is proved for version sets that Version::cmp separates, "
+                    "the unrestricted statement is refuted (F-C06a)"],
+    },
 }
